@@ -212,13 +212,15 @@ impl World {
             }
             Res::Panic(p) => {
                 st.panic += 1;
-                let f = r.viol.entry(p.site.clone()).or_insert_with(|| Finding { count: 0, call, entry, message: p.message.clone(), location: p.location.clone() });
+                // keyed by site AND line: the parent turns the line into the
+                // enclosing item, so that two defects in one file stay apart
+                let f = r.viol.entry(format!("{} @{}", p.site, p.location)).or_insert_with(|| Finding { count: 0, call, entry, message: p.message.clone(), location: p.location.clone() });
                 f.count += 1;
             }
             Res::Skip => {}
         }
         if let Some(p) = out.accessor_panic {
-            let f = r.diag.entry(p.site.clone()).or_insert_with(|| Finding { count: 0, call, entry, message: p.message.clone(), location: p.location.clone() });
+            let f = r.diag.entry(format!("{} @{}", p.site, p.location)).or_insert_with(|| Finding { count: 0, call, entry, message: p.message.clone(), location: p.location.clone() });
             f.count += 1;
         }
     }
